@@ -12,6 +12,8 @@ mod hist;
 mod c03;
 mod c08;
 mod c07;
+mod refbmca;
+mod c05;
 
 use engine::Ctx;
 
@@ -72,6 +74,8 @@ fn main() {
         ("C08", Some(p)) => c08::replay(&ctx, p),
         ("C07", None) => c07::run(&ctx),
         ("C07", Some(p)) => c07::replay(&ctx, p),
+        ("C05", None) => c05::run(&ctx),
+        ("C05", Some(p)) => c05::replay(&ctx, p),
         ("C16", None) => c16::run(&ctx),
         ("C16", Some(p)) => c16::replay(&ctx, p),
         _ => {
